@@ -377,7 +377,8 @@ PLANS["C13"] = {
 
 def c14_steps(tier, seed):
     q = tier == "quick"
-    st = [native("forbid-grid", ["w_forbid", "--seed", seed, "--full"], timeout=600)]
+    st = [native("forbid-grid", ["w_forbid", "--seed", seed, "--full"], timeout=600),
+          strace("forbid-pipe-strace", ["w_forbid", "--seed", seed, "--full", "--only-pipe"], oracle="c14", timeout=600)]
     if not q:
         st.append(valgrind("forbid-valgrind", ["w_forbid", "--seed", seed], timeout=3000))
     return st
@@ -389,7 +390,7 @@ PLANS["C14"] = {
         "exploration",
         "complete grid, one forked child per case: 16 registration entry points (registry x4 + re-export, flag x4, pipe x2, "
         "Signals::new, SignalsInfo<WithRawSiginfo|WithOrigin>::new, Handle::add_signal, SignalDelivery::with_pipe) x 140 numbers "
-        "([-2,130] + {i32::MIN, i32::MIN+1, -129, 255, 256, 65536, i32::MAX}) x {fresh process, after 5 other signals registered}; "
+        "([-2,130] + {i32::MIN, i32::MIN+1, -129, 255, 256, 65536, i32::MAX}) x {fresh process, after 5 other signals registered, after the same number went through an unchecked entry point}; "
         "oracle: outcome class {Ok, Err, catchable panic, process death} against the published FORBIDDEN list / documented panics / "
         "this kernel; after a non-Ok outcome: all 64 dispositions and the fd table unchanged, a witness action still runs once per "
         "delivery, captured Arcs have strong count 1, handed-over descriptors are closed, a valid registration through the same "
